@@ -379,3 +379,8 @@ func Quiesce(d time.Duration) {
 // CallerFile declares what runtime.Caller reports under the engine (natively
 // the real call site is reported).
 func CallerFile(file string, line int) {}
+
+// Preemptions sets the preemption budget (G2): besides the free context
+// switches at blocking points, the running goroutine may be preempted up to n
+// times at synchronisation operations (locks, atomics, channel operations).
+func Preemptions(n int) {}
